@@ -414,6 +414,12 @@ pub fn vec_op<'b, P: Pair>(ctx: &mut Ctx, bump: &'b Bump, v: &mut VSlot<'b, P::A
                             got.push(x.val());
                         }
                     }
+                    if c & 0x10 != 0 {
+                        got.push(sp.len() as u32);
+                        if let Some(x) = sp.next_back() {
+                            got.push(x.val());
+                        }
+                    }
                     drop(sp);
                     got
                 },
@@ -423,6 +429,12 @@ pub fn vec_op<'b, P: Pair>(ctx: &mut Ctx, bump: &'b Bump, v: &mut VSlot<'b, P::A
                     let mut got = Vec::with_capacity(8);
                     for _ in 0..take {
                         if let Some(x) = sp.next() {
+                            got.push(x.val());
+                        }
+                    }
+                    if c & 0x10 != 0 {
+                        got.push(sp.len() as u32);
+                        if let Some(x) = sp.next_back() {
                             got.push(x.val());
                         }
                     }
@@ -683,6 +695,37 @@ pub fn vec_op<'b, P: Pair>(ctx: &mut Ctx, bump: &'b Bump, v: &mut VSlot<'b, P::A
                 },
             );
             ctx.both("sort_by_key (slice method through DerefMut)", || s.sort_by_key(|x| x.val()), || t.sort_by_key(|x| x.val()));
+            {
+                // the vector's own comparison and hashing impls, against a second arena vector
+                use std::hash::{Hash, Hasher};
+                let k = (c % 4) as usize;
+                let other_vals: Vec<u32> = t.iter().take(t.len().saturating_sub(k)).map(|x| x.val()).chain(std::iter::once(a as u32 % 12)).collect();
+                let os: BVec<u32> = {
+                    let _g = enter_arena(1);
+                    BVec::from_iter_in(other_vals.iter().cloned(), bump)
+                };
+                let ms: BVec<u32> = {
+                    let _g = enter_arena(1);
+                    BVec::from_iter_in(s.iter().map(|x| x.val()), bump)
+                };
+                let mt: Vec<u32> = t.iter().map(|x| x.val()).collect();
+                let got = (ms == os, ms != os, ms.cmp(&os), ms.partial_cmp(&os), ms < os, ms >= os, ms == &other_vals[..], ms[..] == other_vals[..]);
+                let want = (mt == other_vals, mt != other_vals, mt.cmp(&other_vals), mt.partial_cmp(&other_vals), mt < other_vals, mt >= other_vals, mt == &other_vals[..], mt[..] == other_vals[..]);
+                if got != want {
+                    ctx.v("C13", format!("Vec's Eq/Ord impls give {:?}, std's give {:?} for {:?} vs {:?}", got, want, mt, other_vals));
+                }
+                let h = |f: &dyn Fn(&mut std::collections::hash_map::DefaultHasher)| {
+                    let mut hs = std::collections::hash_map::DefaultHasher::new();
+                    f(&mut hs);
+                    hs.finish()
+                };
+                if h(&|hs| ms.hash(hs)) != h(&|hs| mt.hash(hs)) {
+                    ctx.v("C13", "Vec hashes differently from std's Vec with the same contents".into());
+                }
+                let _g = enter_arena(1);
+                drop(os);
+                drop(ms);
+            }
         }
         _ => {}
     }
